@@ -152,7 +152,22 @@ func (g *c01Gen) genData(s *c01Scope) []*c01Node {
 		state := g.newVar(c01Ty{sort: 'i', kind: "int"})
 		sd := &c01Node{op: "decl", x: state, args: []*c01Node{c01Lit(int64(g.pick(5)))}}
 
-		return []*c01Node{sd, g.declare(s, c01Ty{sort: 'F', sig: sig}, g.genFnLit(s, sig, false, state), false)}
+		lit := g.genFnLit(s, sig, false, state)
+		fd := g.declare(s, c01Ty{sort: 'F', sig: sig}, lit, false)
+		reads := map[*c01Var]bool{}
+		c01Mentions(lit.f.body, reads)
+
+		if g.cloReads == nil {
+			g.cloReads = map[*c01Var][]*c01Var{}
+		}
+
+		for _, v := range s.vars { // (scope order: deterministic)
+			if reads[v] {
+				g.cloReads[fd.x] = append(g.cloReads[fd.x], v)
+			}
+		}
+
+		return []*c01Node{sd, fd}
 	}
 
 	return []*c01Node{g.genPrint(s)}
